@@ -370,6 +370,14 @@ def contains(s, sub_):
     return T("str.contains", (lift(s), lift(sub_)), BOOL)
 
 
+def prefixof(pre, s):
+    return T("str.prefixof", (lift(pre), lift(s)), BOOL)
+
+
+def suffixof(suf, s):
+    return T("str.suffixof", (lift(suf), lift(s)), BOOL)
+
+
 def indexof(s, sub_, frm=0):
     return T("str.indexof", (lift(s), lift(sub_), lift(frm)), INT)
 
@@ -790,6 +798,10 @@ def ev(t, env, funcs=None):
             return s[off:off + ln]
         if op == "str.contains":
             return go(a[1], local) in go(a[0], local)
+        if op == "str.prefixof":
+            return go(a[1], local).startswith(go(a[0], local))
+        if op == "str.suffixof":
+            return go(a[1], local).endswith(go(a[0], local))
         if op == "str.indexof":
             s, u, f = go(a[0], local), go(a[1], local), go(a[2], local)
             if f < 0 or f > len(s):
